@@ -295,6 +295,7 @@ class Obligation:
     note: str = ''
     path: int = 0
     kind: str = 'assert'   # assert | cover
+    hints: Any = None      # candidate witness (list of constraints) under which a counter-model may be looked for
 
 
 class Path:
@@ -386,7 +387,8 @@ class Path:
             goal = z3.BoolVal(True)
         elif goal is False:
             goal = z3.BoolVal(False)
-        self.obligations.append(Obligation(name, list(self.pc), goal, lineno, note))
+        self.obligations.append(Obligation(name, list(self.pc), goal, lineno, note,
+                                           hints=list(self.cover_hints) or None))
 
     def cover(self, name: str, lineno: int = 0) -> None:
         """Reachability marker: the path condition here must be satisfiable (vacuity guard)."""
